@@ -40,7 +40,9 @@ PAIRS: List[tuple] = [
     ("$[?@.a =~ /a.b/s]", "$[?match(@.a, 'a[\\\\s\\\\S]b')]", None, "objarr", {"strs": S}), ("$[?@.a =~ /b/]", "$[?@.a == 'b']", None, "objarr", {"strs": S}),
     ("$[?@.a =~ /a$/m]", "$[?@.a == 'a']", None, "objarr", {"strs": S}),
     # operator aliases
-    ("$[?@.a <> 1]", "$[?@.a != 1]", None, "objarr", {}), ("$[?@.a <> @.b]", "$[?@.a != @.b]", None, "objarr", {"leaf": "nbi"}),
+    ("$[?@.a <> 1]", "$[?@.a != 1]", None, "objarr", {}), ("$[?@.a == 1 && @.b <> 2]", "$[?@.a == 1 && @.b != 2]", None, "objarr", {"leaf": "int"}),
+    ("$[?@.b <> 2 && @.a == 1]", "$[?@.b != 2 && @.a == 1]", None, "objarr", {"leaf": "int"}), ("$[?@.b <> 2 || @.a <> 1]", "$[?@.b != 2 || @.a != 1]", None, "objarr", {"leaf": "int"}),
+    ("$[?not @.a <> 1]", "$[?!@.a != 1]", None, "objarr", {"leaf": "int"}), ("$[?@.a in [1] and @.b contains 1 or @.a =~ /a/]", "$[?@.a == 1 && @.b contains 1 || match(@.a, 'a')]", None, "objarr", {}), ("$[?@.a <> @.b]", "$[?@.a != @.b]", None, "objarr", {"leaf": "nbi"}),
     ("$[?@.a and @.b]", "$[?@.a && @.b]", None, "objarr", {}), ("$[?@.a or @.b == 1]", "$[?@.a || @.b == 1]", None, "objarr", {}),
     ("$[?not @.b]", "$[?!@.b]", None, "objarr", {}), ("$[?not (@.a == 1 and @.b) or @.b]", "$[?!(@.a == 1 && @.b) || @.b]", None, "objarr", {}),
     ("$[?@.a == 1 and not @.b or @.a == 2]", "$[?@.a == 1 && !@.b || @.a == 2]", None, "objarr", {"leaf": "int"}),
